@@ -31,6 +31,9 @@ pub struct XenDev {
     /// fail the k-th (0-based) map ioctl (grant map or privcmd batch) of the run
     pub fail_map_at: Option<u32>,
     pub map_calls: u32,
+    /// fail the next unmap_grant_ref ioctl (the device keeps the grant, as a busy driver would)
+    pub fail_next_unmap: bool,
+    pub unmap_failed: u32,
     pub anomalies: Vec<String>,
     pub log: Vec<String>,
     pub foreign_maps: u32,
@@ -40,7 +43,7 @@ impl XenDev {
     pub fn new() -> XenDev {
         let mem = crate::gmworld::memfd(GUEST_MEM_SIZE);
         let fd = mem.as_raw_fd();
-        XenDev { mem, fds: vec![fd], grants: Vec::new(), ioctl_calls: 0, fail_map_at: None, map_calls: 0, anomalies: Vec::new(), log: Vec::new(), foreign_maps: 0 }
+        XenDev { mem, fds: vec![fd], grants: Vec::new(), ioctl_calls: 0, fail_map_at: None, map_calls: 0, fail_next_unmap: false, unmap_failed: 0, anomalies: Vec::new(), log: Vec::new(), foreign_maps: 0 }
     }
     /// a File referring to the device, to hand to the library
     pub fn handle(&mut self) -> File {
@@ -165,6 +168,15 @@ pub unsafe fn ioctl(fd: i32, req: u64, arg: *mut u8, _arg_len: usize) -> i32 {
             let u = &*(arg as *const Unmap);
             cx().ev(crate::sim::EvKind::Sys, 6, u.index, u.count as u64);
             let x = cx().sys.xen.as_mut().unwrap();
+            if x.fail_next_unmap {
+                x.fail_next_unmap = false;
+                x.unmap_failed += 1;
+                x.log.push(format!("unmap_grant_ref(index={:#x}, count={}) -> injected failure", u.index, u.count));
+                cx().count("fault.xen_unmap_ioctl_fail");
+                // SAFETY: errno location is always valid.
+                *libc::__errno_location() = libc::EBUSY;
+                return -1;
+            }
             match x.grants.iter_mut().find(|g| g.live && g.index == u.index && g.count == u.count) {
                 Some(g) => {
                     if !g.windows.is_empty() {
